@@ -7,7 +7,7 @@ use dashu_base::{
 use dashu_int::IBig;
 
 use crate::{
-    error::{assert_finite, assert_limited_precision},
+    error::{assert_finite, assert_limited_precision, panic_log_domain},
     fbig::FBig,
     repr::{Context, Repr, Word},
     round::{Round, Rounded},
@@ -228,6 +228,14 @@ impl<R: Round> Context<R> {
 
         if (one_plus && x.is_zero()) || (!one_plus && x.is_one()) {
             return Exact(FBig::ZERO);
+        }
+
+        // the argument must be positive (larger than -1 for ln_1p), otherwise the scaling below
+        // never finds a value in [1, 2) and the series does not terminate
+        if (!one_plus && (x.is_zero() || x.sign() == Sign::Negative))
+            || (one_plus && *x <= Repr::neg_one())
+        {
+            panic_log_domain()
         }
 
         // A simple algorithm:
